@@ -772,6 +772,18 @@ Proof.
   destruct (text_eqb K_factory k), (text_eqb K_callback k), (text_eqb K_count k); reflexivity.
 Qed.
 
+Lemma filter_filter {X} (f g : X -> bool) l : filter f (filter g l) = filter (fun x => g x && f x) l.
+Proof.
+  induction l as [|x l IH]; cbn [filter]; [reflexivity|].
+  destruct (g x); cbn [filter andb]; [destruct (f x)|]; rewrite IH; reflexivity.
+Qed.
+
+Lemma keys_strip m : map fst (strip m) = filter (fun k => negb (special k)) (map fst m).
+Proof.
+  unfold strip. rewrite !keys_remove_key, !filter_filter. apply filter_ext. intros k. unfold special.
+  destruct (text_eqb K_count k), (text_eqb K_callback k), (text_eqb K_factory k); reflexivity.
+Qed.
+
 Lemma nodup_filter {X} (p : X -> bool) l : NoDup l -> NoDup (filter p l).
 Proof.
   induction 1 as [|x l Hn Hnd IH]; cbn [filter]; [constructor|].
